@@ -8,6 +8,10 @@ func runGen2(name string, w *bufio.Writer, rng *prng, n, depth int) bool {
 		genBuffer(w, rng, depth, n, false)
 	case "buffer-invalid-runes":
 		genBuffer(w, rng, depth, n, true)
+	case "printer":
+		genPrinterRandom(w, rng, n, depth, true)
+	case "printer-clean":
+		genPrinterRandom(w, rng, n, depth, false)
 	default:
 		return false
 	}
